@@ -142,18 +142,41 @@ def short(m):
     return str({k: v for k, v in m.items() if k in ('out', 'exc', 'cls', 'msg', 'token', 'offset', 'unsupported')})[:200]
 
 
+_POOL = None
+
+
+def _impl_worker(args):
+    case, cfg = args
+    import warnings
+    warnings.filterwarnings('ignore', category=SyntaxWarning)
+    try:
+        return core.limited(run_impl, case, cfg, seconds=20)
+    except core.ImplTimeout:
+        return {'impl_timeout': True}
+
+
+def impl_many(cases, cfg=None):
+    """run the implementation on many cases in worker processes (each case is independent)"""
+    global _POOL
+    if len(cases) < 64:
+        return [_impl_worker((c, cfg)) for c in cases]
+    import multiprocessing
+    if _POOL is None:
+        _POOL = multiprocessing.get_context('fork').Pool(min(14, multiprocessing.cpu_count()))
+    return _POOL.map(_impl_worker, [(c, cfg) for c in cases], chunksize=32)
+
+
 def run_cases(ctx, cases, cfg=None, what='render', with_tlog=False):
     """model vs implementation on a list of cases; returns list of (case, model, impl) actually compared"""
     reqs = [model_req(c, cfg) for c in cases]
     outs = core.par_batch(reqs)
+    impls = impl_many(cases, cfg)
     compared = []
-    for c, o in zip(cases, outs):
+    for c, o, impl in zip(cases, outs, impls):
         if o.get('timeout'):
             ctx.count('model_timeouts')
             continue
-        try:
-            impl = core.limited(run_impl, c, cfg)
-        except core.ImplTimeout:
+        if impl.get('impl_timeout'):
             ctx.count('impl_timeouts')
             continue
         m = o.get('ok', {})
